@@ -14,7 +14,7 @@ CORE = ('pm_types.CodedValue', 'pm_types.InstanceIdentifier', 'pm_types.Localize
         'eventing_types.Subscribe', 'eventing_types.SubscriptionEnd', 'wsd_types.HelloType')
 QUICK_ROTATING = 10         # additional classes per quick run, chosen by VERIF_SEED (all classes are reached over ~17 seeds)
 QUICK_BUDGET, THOROUGH_BUDGET = 48, 144   # max. product of per-member alternatives explored jointly in one window
-QUICK_PATHS, THOROUGH_PATHS = 110, 450    # max. paths per CrossHair process: a class with more is split into parts (by window)
+QUICK_PATHS, THOROUGH_PATHS = 110, 260    # max. paths per CrossHair process: a class with more is split into parts (by window)
 
 F_COMMON = ['sdc11073.xml_types.basetypes.XMLTypeBase.as_etree_node', 'sdc11073.xml_types.basetypes.XMLTypeBase.update_node',
             'sdc11073.xml_types.basetypes.XMLTypeBase.update_from_node', 'sdc11073.xml_types.basetypes.XMLTypeBase.from_node',
@@ -66,7 +66,8 @@ STUBS = ['FakeElement (harness/fakeetree.py) replaces lxml.etree inside xml_stru
          'design and is excluded from all comparisons)',
          'normalisation: for list-valued members None and [] denote the same wire value; a member declared with default_py_value '
          'on a SubElementProperty reads back as that default when its element is absent (documented behaviour), for attribute / '
-         'text descriptors default_py_value is only the initial value of a new instance']
+         'text descriptors default_py_value is only the initial value of a new instance; consequently, when such a member was None the '
+         're-serialisation check demands stability from the second serialisation on (the first adds the default\'s empty element)']
 
 META = {
     'explanation': 'Obligations are generated by introspection of the current source: every subclass of XMLTypeBase / ContainerBase '
@@ -189,9 +190,9 @@ def obligations(tier):
                                      f'outside the window: {"absent / empty" if bg == 0 else "all present (concrete)"}; {plan}',
                               claim='from_node(as_node(x)) equals x member-wise; absent members read back as implied/default (also per '
                                     'XSD documentation) and not as the shared class-level object; as_node(from_node(as_node(x))) == as_node(x)'))
-    only = os.environ.get('VERIF_ONLY')      # development aid: run only obligations whose id contains this text
+    only = os.environ.get('VERIF_ONLY')      # development aid: run only obligations whose id contains one of these texts
     if only:
-        obs = [o for o in obs if only in o.id]
+        obs = [o for o in obs if any(t in o.id for t in only.split(','))]
     return obs
 
 
